@@ -42,7 +42,8 @@ var reValueObl = regexp.MustCompile(`/(value|evaluates|operand-type|size-nonneg)
 
 // the obligations of C15 among the template value obligations: the places
 // where static types select a specialised instruction
-var reC15Tmpl = regexp.MustCompile(`^tmpl:(BinaryNode\[==\]|IdentifierNode|IntegerNode)`)
+var reC15Tmpl = regexp.MustCompile(`^tmpl:(BinaryNode\[==\]|IdentifierNode)`)
+var reC15Also = regexp.MustCompile(`^tmpl:IntegerNode`)
 
 func templateObls(w *World, keep func(name string) bool) ([]*Obligation, []string) {
 	obls, notes := genTemplates(w)
@@ -91,7 +92,9 @@ func genC01(w *World, res *CheckResult) {
 // C15 — type information only rejects: the instructions selected from static
 // types agree with the generic ones on the operands those types admit.
 func genC15(w *World, res *CheckResult) {
-	obls, notes := templateObls(w, func(n string) bool { return reValueObl.MatchString(n) && reC15Tmpl.MatchString(n) })
+	obls, notes := templateObls(w, func(n string) bool {
+		return reValueObl.MatchString(n) && (reC15Tmpl.MatchString(n) || reC15Also.MatchString(n))
+	})
 	res.Obls = append(res.Obls, obls...)
 	res.Assumptions = append(res.Assumptions, notes...)
 	g := genRun(w)
@@ -101,6 +104,21 @@ func genC15(w *World, res *CheckResult) {
 	res.Obls = append(res.Obls, selectObls(genPureAll(w), `^vm\.equal/`)...)
 	res.Functions = append(res.Functions, "vm.equal", "compiler.compiler.BinaryNode", "compiler.compiler.IdentifierNode", "compiler.compiler.IntegerNode")
 	genCheckerPointer(w, res)
+	// static types the selection relies on: checker.combined predicts the helpers' result kind (cells shared with C14, C03)
+	{
+		e14 := NewExec(w)
+		e14.SafeMode = func(*ssa.Function) string { return "panics" }
+		helpers := []string{"toInt", "toInt64", "toFloat64", "negate", "exponent", "equal", "less", "more", "lessOrEqual", "moreOrEqual", "add", "subtract", "multiply", "divide", "modulo"}
+		for _, n := range helpers {
+			w.forceInline["vm."+n] = true
+		}
+		tmp := &CheckResult{}
+		genC14Checker(w, e14, tmp)
+		for _, n := range helpers {
+			delete(w.forceInline, "vm."+n)
+		}
+		res.Obls = append(res.Obls, selectObls(e14.obls, `^checker\.combined\[`)...)
+	}
 	verifyInit(w, res, "compiler")
 	// the optimizer's type-directed rewrites fire only for operands of exactly the type they are valid for
 	{
